@@ -138,6 +138,7 @@ def gen_cfg(rng, world, fault_rate=0.35):
     return {"cache_remote": rng.random() < 0.65, "urljoin_cache": rng.choice(caches),
             "remote_cache": rng.choice(caches), "handler_schemes": schemes,
             "base_mode": rng.choice(["from_schema", "explicit"]),
+            "store_kind": rng.choice(["dict", "dict", "pairs", "uridict"]),
             "faults": faults, "use_store": True}
 
 
@@ -170,6 +171,15 @@ class Actor(object):
             keys = world.get("store_keys") or {}
             store = dict((keys.get(u, u), shared_from.resolver.store[u]) for u in store_urls)
         self.root = root
+        sk = cfg.get("store_kind", "dict")
+        if sk == "pairs":
+            store = list(store.items())                  # store= accepts anything dict.update() accepts
+        elif sk == "uridict":
+            from jsonschema._utils import URIDict
+            fresh_store = URIDict()
+            for k_, v_ in store.items():
+                fresh_store[k_] = v_
+            store = fresh_store
         if store_from is not None:
             # the caller hands over ANOTHER resolver's public `.store` object as store= (the documented way to
             # seed a resolver with documents): the new resolver must take the documents, not the object
@@ -469,9 +479,22 @@ def do_op(actor, op, instances):
         inst0 = fast(inst)
     out = None
     ctx = GcAt(actor, op["gc_at"]) if op.get("gc_at") else _NoCtx()
+    sub = None
+    if op.get("sub") is not None and isinstance(actor.root, dict):
+        defs = actor.root.get("definitions") or {}
+        names = sorted(defs)
+        if names:
+            sub = defs[names[op["sub"] % len(names)]]    # validate against a SUBSCHEMA object of the root, explicitly
     try:
       with ctx:
-          if kind == "is_valid":
+          if kind == "is_valid" and op.get("elsewhere") == "whole":
+              out = {"k": "bool", "v": bool(in_other_thread(lambda: v.is_valid(inst), actor))}
+              actor.probe("whole_operation_on_another_thread")
+          elif kind == "is_valid" and sub is not None:
+              with StackLimit(deep):
+                  out = {"k": "bool", "v": bool(v.is_valid(inst, sub))}
+              actor.probe("explicit_subschema_argument")
+          elif kind == "is_valid":
               with StackLimit(deep):
                   out = {"k": "bool", "v": bool(v.is_valid(inst))}
           elif kind == "exhaust":
